@@ -10,7 +10,7 @@ BUDGET = {"quick": 3000, "thorough": 60000}
 LEVEL_TEXT = ("Lean theorem C03_ctx: the server's context automaton equals a block-wise specification of grep "
               "semantics for every line sequence, selection and before/after/max (unbounded), plus C03_filter / "
               "C03_partial for the whole filter with regex flags; tied to the code by a differential run of the real "
-              "reader+filter and the dgrep binary, selection bits supplied by Go's regexp")
+              "reader+filter and the dgrep binary, selection bits supplied by Go's regexp; tie G on internal/regex (Match_spec, see C12); long sparse files with --before up to 1000")
 TRUSTED = ["Lean 4 kernel", "axioms: propext, Quot.sound, Classical.choice (at most)", "fact extractor (noop pattern list, flag names)",
            "overlay harness + dtmodel driver + this diff", "modelled not verified: Go regexp (RE2) matching — an abstract predicate in every theorem"]
 ASSUMPTIONS = ["the regexp engine is a deterministic function of the bytes it is given"]
